@@ -3484,8 +3484,22 @@ func _case(n *node) {
 			v0 := value(f)
 			for _, v := range values {
 				v1 := v(f)
-				if !v0.Type().AssignableTo(v1.Type()) {
-					v0 = v0.Convert(v1.Type())
+				if v1.Kind() == reflect.Interface && v1.IsNil() {
+					// The tag is compared to nil.
+					switch v0.Kind() {
+					case reflect.Chan, reflect.Func, reflect.Interface, reflect.Map, reflect.Ptr, reflect.Slice, reflect.UnsafePointer:
+						if v0.IsNil() {
+							return tnext
+						}
+					}
+					continue
+				}
+				if !v1.Type().AssignableTo(v0.Type()) {
+					// The case value is converted to the type of the tag.
+					if !v1.CanConvert(v0.Type()) {
+						continue
+					}
+					v1 = v1.Convert(v0.Type())
 				}
 				if v0.Interface() == v1.Interface() {
 					return tnext
